@@ -617,10 +617,29 @@ type desc struct {
 }
 
 type ctx struct {
-	w     *cv.Writer
-	st    *cv.Stats
-	seen  map[string]bool
-	salts map[string]bool
+	sampled map[string]bool
+	w       *cv.Writer
+	st      *cv.Stats
+	seen    map[string]bool
+	salts   map[string]bool
+}
+
+// sample keeps one real case per kind for the evidence file.
+func (c *ctx) sample(kind string, d desc) {
+	if c.sampled == nil {
+		c.sampled = map[string]bool{}
+	}
+	if c.sampled[kind] || len(c.st.Samples) >= 12 {
+		return
+	}
+	c.sampled[kind] = true
+	if len(d.Password) > 80 {
+		d.Password = d.Password[:80] + "..."
+	}
+	if len(d.Doc) > 700 {
+		d.Doc = d.Doc[:700] + "..."
+	}
+	c.st.Samples = append(c.st.Samples, d)
 }
 
 func (c *ctx) fail(what string, d desc) {
@@ -674,6 +693,7 @@ func (c *ctx) addRead(doc string, pw []byte, kind, note string) {
 	if meta == nil {
 		meta = emptyObj()
 	}
+	c.sample(kind, d)
 	c.w.Add(fmt.Sprintf("CRead %s %s %s %d%%nat %s %s %s %s", t.coq(), docTerm, cv.CoqBytes(pw), o.cls,
 		cv.CoqBytes(o.key), cv.CoqBytes(o.addr), cv.CoqBytes(o.id), meta.coq()), d)
 }
@@ -807,6 +827,7 @@ func (c *ctx) addNew(variant int, pw, secret, stream []byte, extras []extra, key
 	if meta == nil {
 		meta = emptyObj()
 	}
+	c.sample("new:"+variants[variant], d)
 	c.w.Add(fmt.Sprintf("CNew %s %s %s %s %s %s [%s] %d%%nat %s %d %d%%nat %s %s %s %s", t.coq(), variants[variant], cv.CoqBytes(pw),
 		cv.CoqBytes(secret), cv.CoqBytes(addr), cv.CoqBytes(stream), strings.Join(exTerms, "; "), cls, tree.coq(), consumed,
 		o.cls, cv.CoqBytes(o.key), cv.CoqBytes(o.addr), cv.CoqBytes(o.id), meta.coq()), d)
@@ -876,6 +897,55 @@ func wrongPasswords(pw []byte) [][]byte {
 		}
 	}
 	return res
+}
+
+// randValue builds a JSON-representable Go value (strings incl. multi-byte UTF-8 and characters json.Marshal escapes,
+// integers, fractions, large floats, booleans, nested arrays and maps; nil only inside containers).
+func randValue(r *cv.Rand, depth int) interface{} {
+	words := []string{"", "a", "héllo", "<tag>&\"q\"", "漢字", "line\nbreak", "back\\slash", "\u2028sep", "0x1f", "plain text"}
+	switch c := r.Intn(10); {
+	case c < 3:
+		return words[r.Intn(len(words))]
+	case c < 5:
+		return r.Intn(2000001) - 1000000
+	case c == 5:
+		return []float64{0.5, -1.25, 1e21, 1e-7, 123456789.125, 3.0}[r.Intn(6)]
+	case c == 6:
+		return r.Bool()
+	case c == 7 && depth > 0:
+		n := r.Intn(4)
+		a := make([]interface{}, n)
+		for i := range a {
+			if r.Intn(5) == 0 {
+				a[i] = nil
+			} else {
+				a[i] = randValue(r, depth-1)
+			}
+		}
+		return a
+	case c == 8 && depth > 0:
+		m := map[string]interface{}{}
+		for i, n := 0, r.Intn(4); i < n; i++ {
+			m[words[1+r.Intn(len(words)-1)]] = randValue(r, depth-1)
+		}
+		return m
+	default:
+		return words[r.Intn(len(words))]
+	}
+}
+
+func randExtras(r *cv.Rand) []extra {
+	keys := []string{"address", "bjj", "label", "Address", "idx", "vers", "cryptoX", "ключ", "k<1>", "a b"}
+	var out []extra
+	for i, n := 0, 1+r.Intn(5); i < n; i++ {
+		k := keys[r.Intn(len(keys))]
+		if r.Intn(6) == 0 {
+			out = append(out, extra{k, nil})
+		} else {
+			out = append(out, extra{k, randValue(r, 2)})
+		}
+	}
+	return out
 }
 
 func newID(r *cv.Rand) string {
@@ -1041,7 +1111,12 @@ func main() {
 		}
 		pi := r.Intn(len(pws))
 		st.Hit("new-password:" + pwKind(pi))
-		c.addNew(v, pws[pi], sec, r.Bytes(64), extraSets[r.Intn(len(extraSets))], "")
+		ex := extraSets[r.Intn(len(extraSets))]
+		if i%2 == 1 {
+			ex = randExtras(r)
+			st.Hit("new-extras:random")
+		}
+		c.addNew(v, pws[pi], sec, r.Bytes(64), ex, "")
 		nNew++
 	}
 	// a random stream with repeated bytes (salt/IV equal content is legal when the stream says so) is not generated:
@@ -1246,9 +1321,6 @@ func main() {
 	st.Evaluations = c.w.Count()
 	st.Extra["creations"] = nNew + 1
 	st.Rule = "creations: 4 constructors x (secp256k1 keys incl. 1, 2, n-1, >2^255; custom secrets of 1,15,16,17,31,32,33,128 and random 1..128 bytes) x passwords (empty, ASCII, multi-byte UTF-8, surrounding whitespace, 1 KiB, NUL, non-UTF-8) x metadata sets (none, nil address, overrides, nested values, protected core fields, non-ASCII) under a scripted crypto/rand+uuid stream; reads: files written by the harness's own V3 writer over scrypt N in 2..2^14, r in {1,8}, p in {1,2} and PBKDF2 c in {1,2,1000,4096} (hex case, member order, indentation, extra members varied), the two published Web3 vectors, wrong passwords, every byte of ciphertext/MAC/salt flipped, every change of n/r/p/c/dklen/version, truncations, foreign kdf/prf, malformed documents. distinct = distinct (constructor, password, secret, stream, extras) or (document, password); all are non-trivial (each runs a KDF or is rejected by a specific guard)"
-	for _, s := range []string{"CNew VLight pw=\"\" key=0x00..01 extras={} -> JSON() tree, read back", "CRead external scrypt n=16384 r=8 p=1, upper-case hex, shuffled members", "CRead flip-mac byte 31 bit 7 -> Err", "CRead param-n n*2 -> Err"} {
-		st.Samples = append(st.Samples, s)
-	}
 	if err := st.Write(filepath.Join(*out, "stats_C07.json")); err != nil {
 		panic(err)
 	}
